@@ -512,6 +512,36 @@ func (ociSuite) Run(raw json.RawMessage) []Step {
 	steps = append(steps, Step{Line: "oci.index-wf", Mode: "oracle-go", NoImpl: true, GoSpec: verdict(idxProbs),
 		Desc: fmt.Sprintf("well-formedness of the index (archs=%q, %s)", archDesc, icDesc), Tags: []string{"index-wf"}})
 
+	// 3b. the docker manifest list (same entries, no annotations)
+	if _, didx, err := apkooci.GenerateDockerIndex(ctx, ic, imgs, created); err != nil {
+		steps = append(steps, Step{Line: "oci.index-wf\tdocker", Mode: "oracle-go", NoImpl: true, GoSpec: "fail:GenerateDockerIndex: " + err.Error(), Desc: "GenerateDockerIndex " + icDesc})
+	} else if dm, err := didx.IndexManifest(); err == nil {
+		var dentries, probs []string
+		for _, m := range dm.Manifests {
+			if m.Platform == nil {
+				probs = append(probs, "manifest without platform")
+				continue
+			}
+			dentries = append(dentries, fmt.Sprintf("x%s:%s:%d", hx(m.Platform.Architecture), hx(m.Platform.Variant), idOf(m.Digest)))
+			if m.Platform.OS != "linux" {
+				probs = append(probs, "platform os "+m.Platform.OS)
+			}
+		}
+		steps = append(steps, Step{Line: "oci.index\t" + strings.Join(archIn, ",") + "\t" + strings.Join(dentries, ","), Go: strings.Join(dentries, ","), Mode: "verdict",
+			Desc: fmt.Sprintf("GenerateDockerIndex(archs=%q)", archDesc), Tags: []string{"docker-index"}})
+		if string(dm.MediaType) != "application/vnd.docker.distribution.manifest.list.v2+json" {
+			probs = append(probs, "media type "+string(dm.MediaType))
+		}
+		if len(dm.Annotations) != 0 {
+			probs = append(probs, fmt.Sprintf("docker manifest list carries annotations %v", dm.Annotations))
+		}
+		rawD, _ := didx.RawManifest()
+		if d, err := didx.Digest(); err != nil || d.String() != "sha256:"+sha(rawD) {
+			probs = append(probs, "digest is not the hash of the manifest list")
+		}
+		steps = append(steps, Step{Line: "oci.index-wf\tdocker", Mode: "oracle-go", NoImpl: true, GoSpec: verdict(probs), Desc: fmt.Sprintf("docker manifest list (archs=%q)", archDesc), Tags: []string{"docker-index-wf"}})
+	}
+
 	// 4. the bundle
 	dir, err := os.MkdirTemp("", "oci-suite-*")
 	if err != nil {
